@@ -366,3 +366,14 @@ func Size(n *Node) int {
 	}
 	return 1 + Size(n.L) + Size(n.R)
 }
+
+// OperandTokens prints the two operands of an AND node exactly as they appear inside the
+// minimal rendering of the AND (parenthesised where the grammar position requires it).
+func OperandTokens(n *Node, o *PrintOpts) (left, right []string) {
+	if o == nil {
+		o = &PrintOpts{}
+	}
+	emit(n.L, lvAnd, o, &left, false)
+	emit(n.R, lvNot, o, &right, false)
+	return
+}
